@@ -1,3 +1,4 @@
+import re
 """Display / FromStr summaries of paseto-core's text forms (shared by C09, C10, C13)."""
 from ops import *
 from norm import Norm, fn as fmt_n
@@ -122,4 +123,19 @@ def decoded_source(field):
     t = peel_ok(field)
     if isinstance(t, tuple) and t and t[0] == "call" and t[1] in ("base64::decode_vec",):
         return t[2][0]
+    return None
+
+_EXACT = re.compile(r"^<(?:Vec<u8>|&\[u8\]|&mut \[u8\]|Box<\[u8\]>) as TryInto<\[u8; (\d+)\]>>::try_into$|^<\[u8; (\d+)\] as TryFrom<(?:Vec<u8>|&\[u8\]|&mut \[u8\]|Box<\[u8\]>)>>::try_from$")
+_VIEWS = ("Vec::<T, A>::as_slice", "<Vec<u8> as Deref>::deref", "<Vec<u8> as AsRef<[u8]>>::as_ref", "<Vec<u8> as Borrow<[u8]>>::borrow")
+def exact_len_conv(field):
+    """field = ok(<whole-buffer -> [u8; N] std TryFrom>(X)) -> (X, N): these conversions succeed iff len(X) == N (a prefix
+    conversion such as first_chunk::<N> is deliberately not in the table)."""
+    t = peel_ok(field)
+    if isinstance(t, tuple) and t and t[0] == "call":
+        m = _EXACT.match(t[1])
+        if m and field != t:          # must be on the Ok path of the conversion
+            x = t[2][0]
+            while isinstance(x, tuple) and x and x[0] == "call" and x[1] in _VIEWS:
+                x = x[2][0]
+            return x, int(m.group(1) or m.group(2))
     return None
